@@ -9,6 +9,7 @@ use crate::{DirectiveBuf, LineBuf, feature::RecordBuf};
 /// A GFF writer.
 pub struct Writer<W> {
     inner: W,
+    buf: Vec<u8>,
 }
 
 impl<W> Writer<W> {
@@ -68,7 +69,10 @@ where
     /// let writer = gff::io::Writer::new(Vec::new());
     /// ```
     pub fn new(inner: W) -> Self {
-        Self { inner }
+        Self {
+            inner,
+            buf: Vec::new(),
+        }
     }
 
     /// Writes a [`LineBuf`].
@@ -102,7 +106,9 @@ where
     /// assert_eq!(&writer.get_ref()[..], &expected[..]);
     /// # Ok::<(), io::Error>(())
     pub fn write_line(&mut self, line: &LineBuf) -> io::Result<()> {
-        write_line(&mut self.inner, line)
+        self.buf.clear();
+        write_line(&mut self.buf, line)?;
+        self.inner.write_all(&self.buf)
     }
 
     /// Writes a GFF directive.
@@ -125,8 +131,10 @@ where
     /// # Ok::<(), io::Error>(())
     /// ```
     pub fn write_directive(&mut self, directive: &DirectiveBuf) -> io::Result<()> {
-        line::write_directive(&mut self.inner, directive)?;
-        line::write_newline(&mut self.inner)
+        self.buf.clear();
+        line::write_directive(&mut self.buf, directive)?;
+        line::write_newline(&mut self.buf)?;
+        self.inner.write_all(&self.buf)
     }
 
     /// Writes a GFF record.
@@ -186,7 +194,11 @@ where
     /// # Ok::<(), io::Error>(())
     /// ```
     pub fn write_feature_record(&mut self, record: &dyn crate::feature::Record) -> io::Result<()> {
-        line::write_record(&mut self.inner, record)?;
-        line::write_newline(&mut self.inner)
+        // A line is serialized to a buffer first so that a record that fails to serialize does not
+        // leave a partial line in the output.
+        self.buf.clear();
+        line::write_record(&mut self.buf, record)?;
+        line::write_newline(&mut self.buf)?;
+        self.inner.write_all(&self.buf)
     }
 }
